@@ -99,6 +99,17 @@ def _exe(bdir, tgt):
     return os.path.join(bdir, TARGETS[tgt], tgt)
 
 
+def _prune(current, keep=1):
+    """every tree state gets its own 350 MB build directory: after a cold
+    build drop all but the `keep` most recent older ones."""
+    import glob
+    old = [d for d in glob.glob(os.path.join(BUILD, "cmake-apps-*"))
+           if os.path.isdir(d) and d != current]
+    old.sort(key=os.path.getmtime, reverse=True)
+    for d in old[keep:]:
+        shutil.rmtree(d, ignore_errors=True)
+
+
 def app_build(verbose=True):
     """Returns dict(dir, hash, bins{target: path}, failed[target], cold,
     build_s, configure_s, compile_s, cold_build_s)."""
@@ -159,6 +170,7 @@ def app_build(verbose=True):
     os.replace(stamp + ".tmp", stamp)
     res = dict(res, cold=True, build_s=round(time.time() - t0, 2))
     _cache["res"] = res
+    _prune(bdir)
     if verbose:
         print("# appbuild: cold build done in %.1fs (configure %.1fs, "
               "compile %.1fs, -j%d); built %d targets%s" %
